@@ -241,6 +241,19 @@ fn real_emitted(rng: &mut Rng) -> (String, String) {
 
 fn any_source(rng: &mut Rng, seed: u64, n: u64) -> (String, String) {
     match rng.below(16) {
+        15 if rng.chance(0.3) => {
+            // a grammar with hundreds of states (work that a generator might split over threads)
+            let v = *rng.pick(&[1usize, 4, 5, 7]);
+            let (cfg, force) = loop {
+                let (c, f) = crate::gen::big_cfg_variant(rng, 200, v);
+                if c.rules.iter().map(|r| r.rhs.len()).sum::<usize>() <= 1400 && c.nn <= 140 {
+                    break (c, f);
+                }
+            };
+            let mut m = model_from_cfg(&cfg, &force);
+            assign_random_shapes(&mut m, rng, 0.5);
+            ("big-grammar".into(), m.render())
+        }
         15 => {
             // the generator's own output fed back: its comment header (with the `// @sha256 <digest>` line)
             // as the leading comment of a grammar, or the emitted Rust text itself as "grammar"
@@ -1036,6 +1049,24 @@ impl Text {
                 let mut erng = Rng::for_case(w.seed, "text-C14-env", idx * 2 + runs.len() as u64);
                 let mut cmd = std::process::Command::new(exe);
                 cmd.arg("digest").arg(&path);
+                if runs.len() % 2 == 1 {
+                    // this one may use a single CPU only (available_parallelism() == 1)
+                    use std::os::unix::process::CommandExt;
+                    unsafe {
+                        cmd.pre_exec(|| {
+                            let mut set: libc::cpu_set_t = std::mem::zeroed();
+                            if libc::sched_getaffinity(0, std::mem::size_of::<libc::cpu_set_t>(), &mut set) == 0 {
+                                let first = (0..libc::CPU_SETSIZE as usize).find(|c| libc::CPU_ISSET(*c, &set));
+                                if let Some(c) = first {
+                                    let mut one: libc::cpu_set_t = std::mem::zeroed();
+                                    libc::CPU_SET(c, &mut one);
+                                    libc::sched_setaffinity(0, std::mem::size_of::<libc::cpu_set_t>(), &one);
+                                }
+                            }
+                            Ok(())
+                        });
+                    }
+                }
                 for (k, v) in kside::build_script_env(&mut erng) {
                     if k != "HOME" && k != "RUST_BACKTRACE" {
                         cmd.env(k, v);
@@ -1373,7 +1404,7 @@ impl Engine for Text {
         match prop {
             "C12" => "inputs: generated grammars whose struct / enum / terminal declarations carry 0-4 outer attributes each; attribute texts are random over an alphabet of everything but LF (nested brackets of the three kinds, //, #, $, quotes, TAB, CR, U+00A0, U+2028, U+FEFF, 2/3/4-byte characters at any offset incl. directly before the closing bracket, empty #[]), each with a unique marker, followed in the source by nothing / spaces / comments / newlines. One evaluation = one declaration: the lines immediately above `pub struct|enum <Name>` in the emitted text must be byte-for-byte the declaration's attributes in order, no attribute line may precede them, and every marked attribute must occur in the whole emitted text exactly as often as in the source (15 % of the non-empty lists repeat one attribute, directly after itself or elsewhere). Attribute texts also nest brackets 100-70 000 deep (6 %) and draw 6 % of their atoms from a dictionary harvested at run time from kiki's own sources (format placeholders like {node_enum_name}, identifiers). Distinct non-trivial = distinct attribute texts longer than 4 bytes.".into(),
             "C13" => "inputs: generated grammars whose terminals have random payload types from the Kiki type grammar (unit, paths of 1-6 segments, generics nested to depth 8 with 1-4 arguments, unit as argument) written with random whitespace / comments between their tokens. One evaluation = one emitted module: at every use site (terminal enum variant, every struct / variant field of that terminal, node enum variant, try_into_* return type) the emitted type, re-tokenised, must equal the declared token sequence. Distinct non-trivial = distinct type expressions.".into(),
-            "C14" => "inputs: sources of every class (accepted grammars incl. the repository examples, conflicting grammars, every validation error, parse errors, lexical errors). One evaluation = one call of generate; every input is run 8 times in one process on 8 fresh threads (fresh SipHash keys per HashMap; run k passes the text as a slice that starts k bytes into a buffer, i.e. at every alignment modulo 8; odd runs go through the batch of 16 inputs backwards and one run calls every input twice in a row, so a dependence on earlier calls is visible), 4 more times on 4 threads running at the same time (each starting at another offset of the batch, one of them also calling get_grammar_hash: state shared between concurrent calls) and once in each of 2 further processes (each with a different build-script-like process environment: OPT_LEVEL, PROFILE, TARGET, LANG ... and every variable kiki's sources read); the bytes of Ok results / the {:?} of errors (positions and attached automaton included) must be identical. One history of 70 000 calls on one thread compares the answers at calls 2^8, 2^12, 2^16 ... with the first. A canary HashSet iterated in every run records how many distinct hash orders were actually sampled. Distinct non-trivial = distinct inputs that reach the automaton construction (Ok or TableConflict).".into(),
+            "C14" => "inputs: sources of every class (accepted grammars incl. the repository examples, conflicting grammars, every validation error, parse errors, lexical errors). One evaluation = one call of generate; every input is run 8 times in one process on 8 fresh threads (fresh SipHash keys per HashMap; run k passes the text as a slice that starts k bytes into a buffer, i.e. at every alignment modulo 8; odd runs go through the batch of 16 inputs backwards and one run calls every input twice in a row, so a dependence on earlier calls is visible), 4 more times on 4 threads running at the same time (each starting at another offset of the batch, one of them also calling get_grammar_hash: state shared between concurrent calls) and once in each of 2 further processes (one of them confined to a single CPU; each with a different build-script-like process environment: OPT_LEVEL, PROFILE, TARGET, LANG ... and every variable kiki's sources read); the bytes of Ok results / the {:?} of errors (positions and attached automaton included) must be identical. One history of 70 000 calls on one thread compares the answers at calls 2^8, 2^12, 2^16 ... with the first. A canary HashSet iterated in every run records how many distinct hash orders were actually sampled. Distinct non-trivial = distinct inputs that reach the automaton construction (Ok or TableConflict).".into(),
             "C15" => "inputs: (a) accepted sources with / without trailing newline, CRLF, non-ASCII, leading comment up to 60 KB, and ONE source of 2^29 + 12 345 bytes (the bit length of the hashed message exceeds 32 bits): the emitted text must start with a // block containing `// @sha256 ` + the SHA-256 of the source computed by an independent implementation, get_grammar_hash must return exactly that digest, and the build-script freshness test (stored digest == digest of current file) must accept the same text and reject a text differing in one byte; (b) header-like texts assembled from fragments (//, `// @sha256 `, repeated prefixes, CR, CRLF, blank and non-comment lines, Unicode): get_grammar_hash vs the rule in the property statement. One evaluation = one text. Distinct non-trivial = distinct texts.".into(),
             _ => "inputs: sources of every class (accepted, conflicting, every validation error, parse errors, lexical errors - there only the text before the offending lexeme is re-laid-out), each re-joined up to 6 times from the reference lexer's tokens with random separators: nothing where legal, any Unicode whitespace, LF / CRLF, // comments with arbitrary content, comment at the end without newline, everything on one line; every 211th source additionally gets one HUGE run (10^4 .. 10^6 comment lines, blank lines, spaces ...) inserted in one gap, run in a child process; validity of the re-layout (same kinds and texts) is re-checked with the reference lexer. One evaluation = one (source, re-layout) pair: Ok outputs must be identical outside the `// @sha256` line, errors identical after mapping every byte position through the token-start map. Distinct non-trivial = distinct sources with at least one re-layout.".into(),
         }
